@@ -122,6 +122,7 @@ func (cs *ContractSet) parseContractText(file, pkgName string, text string) erro
 	lines := strings.Split(text, "\n")
 	var cur *Contract
 	var curLemma *Lemma
+	scope := "" // "scope PKG": the following contracts apply only to calls made from units of package PKG
 	var lastClause *string // for continuation
 	var pending []struct {
 		kind string
@@ -226,6 +227,9 @@ func (cs *ContractSet) parseContractText(file, pkgName string, text string) erro
 				return fmt.Errorf("%s:%d: bad func header %q", file, ln+1, l)
 			}
 			key := contractKey(pkgName, m[1], m[2], m[3])
+			if scope != "" {
+				key = scope + "::" + key
+			}
 			cur = &Contract{Key: key, Header: l, Loops: map[int]*LoopSpec{}, File: file}
 			if old, dup := cs.ByKey[key]; dup {
 				// first definition wins; the duplicate is parsed but ignored
@@ -254,6 +258,11 @@ func (cs *ContractSet) parseContractText(file, pkgName string, text string) erro
 			}
 			curLemma = &Lemma{Name: name, Vars: vars, Pkg: pkgName, Axiom: word == "axiom"}
 			cs.Lemmas = append(cs.Lemmas, curLemma)
+		case "scope":
+			scope = strings.TrimSpace(rest)
+			if scope == "*" || scope == "all" {
+				scope = ""
+			}
 		case "property":
 			if curLemma != nil {
 				curLemma.Props = append(curLemma.Props, strings.Fields(rest)...)
